@@ -127,7 +127,9 @@ impl SimpleMdnsResponder {
                                 scope.socket_address()
                             };
 
-                            sender_socket.send_to(&reply, reply_addr).await?;
+                            if let Err(err) = sender_socket.send_to(&reply, reply_addr).await {
+                                log::error!("Failed to send reply {err}");
+                            }
                         }
                         None => {
                             continue;
